@@ -50,7 +50,7 @@ UNI = "\u00fcn\u00ef\u20acode\u2713"
 # single, non-recursive pass that deletes `../` turns into a fresh `../`)
 COMPONENTS = ["..", ".", "", "a", LONG, UNI, "C:", "CON", "...", ".. ", "sibling", "out-evil", "abs", "home", "....", "....\\", "..../"]
 SEPSTYLES = ["bs", "fs", "mixed", "dbs", "dfs"]
-PREFIXES = ["none", "abs-fs", "abs-bs", "abs-mixed", "unc-bs", "unc-fs", "drive-bs", "drive-fs", "drive-rel", "drive-abs"]
+PREFIXES = ["none", "abs-fs", "abs-bs", "abs-mixed", "unc-bs", "unc-fs", "drive-bs", "drive-fs", "drive-rel", "drive-abs", "drive-abs-dbs", "drive-abs-dfs", "drive-abs-fs"]
 
 RULE = ("one case = one run of the CLI (`mpq extract`) under strace on an archive written by the independent writer lib/refmpq.py: 3 (quick) / 5 (thorough) hostile entry names "
         "(hashed verbatim, listed verbatim in (listfile)) + 4 benign names whose bytes are checked after the run. Names: an enumerated core (every separator style x `..` depth 1-6, "
@@ -122,6 +122,13 @@ def realize(spec, absdir):
         pre = "C:"
     elif p == "drive-abs":
         pre = "C:\\" + ab.replace("/", "\\") + "\\"
+    elif p == "drive-abs-dbs":
+        # what is left once `C:` and ONE separator are taken away is root-anchored (after C11-r8m1)
+        pre = "C:\\\\" + ab.replace("/", "\\") + "\\"
+    elif p == "drive-abs-dfs":
+        pre = "C://" + ab + "/"
+    elif p == "drive-abs-fs":
+        pre = "C:/" + ab + "/"
     else:
         raise ValueError(p)
     # 0-2 leading `.` components, each followed by its own separator (single, doubled or mixed), in front of whatever the prefix is:
@@ -196,6 +203,12 @@ def contained(name, box):
         for g in (f, f.lstrip("/"), re.sub(r"^[A-Za-z]:", "", f).lstrip("/")):
             for one in (g.replace("../", ""), re.sub(r"\.\./+", "", g)):
                 base_forms += [one, one.replace("../", ""), re.sub(r"\.\./+", "", one)]
+    for f in list(base_forms):
+        m = re.match(r"^[A-Za-z]:", f)
+        if m:
+            # a tool that drops the drive prefix together with ONE separator behind it (all of them: see lstrip above)
+            rest = f[m.end():]
+            base_forms.append(rest[1:] if rest[:1] in ("/", "\\") else rest)
     for f in base_forms:
         forms |= {f, f.lstrip("/")}
         g = f
@@ -262,6 +275,11 @@ def core_specs():
         add(p, ["@"], sep)
         add(p, ["sub", "@"], sep)
         add(p, ["..", "..", "@"], sep)
+    for p in ("drive-abs-dbs", "drive-abs-dfs", "drive-abs-fs"):
+        sep = "bs" if p.endswith("bs") else "fs"
+        add(p, ["@"], sep)
+        add(p, ["newdir", "@"], sep)
+        add(p, ["canary.txt"], sep)
     for sep in ("bs", "fs"):
         add("none", ["...", "@"], sep)
         add("none", [".. ", "@"], sep)
@@ -288,6 +306,13 @@ def core_specs():
             add("none", ["!b1", "Sub Dir"] + [".."] * k + ["@"], sep)
         add("none", ["!b0", "..", "..", "@"], sep)
         add("none", ["!b1", "Sub Dir", "..", "..", "..", "sibling", "@"], sep)
+    # the same continuations with ONE change of separator kind: backslashes up to component j, forward slashes behind it, and the
+    # other way round (a name is split at its last backslash / last slash by more than one layer; after C11-r8m3)
+    for comps in (["!b1", "Sub Dir", "..", "..", "..", "@"], ["!b1", "Sub Dir", "..", "..", "..", "..", "@"], ["!b0", "..", "..", "@"],
+                  ["!b1", "Sub Dir", "..", "..", "..", "sibling", "@"], ["zz", "deep", "er", "..", "..", "..", "..", "@"]):
+        for j in range(1, len(comps) - 1):
+            add("none", comps, "mixed", pat=(0xFFFF << j) & 0xFFFF)
+            add("none", comps, "mixed", pat=(1 << j) - 1)
     add("none", [".."], "bs")
     add("none", ["."], "bs")
     add("none", ["@"], "bs")
